@@ -56,4 +56,77 @@ def exactOrder2f (p : Nat) (A C : E) (f : Nat) (P : E × E) : Bool :=
   let T := xDBLiter p A C (f - 1) P
   !(isZero p T.2) && isZero p (xDBL p A C T).2
 
+
+/-- differential addition x(P+Q) from x(P), x(Q), x(P−Q) (formula of `xADD` in ec.c) -/
+def xADD (p : Nat) (P Q D : E × E) : E × E :=
+  let t0 := add p P.1 P.2
+  let t1 := sub p P.1 P.2
+  let t2 := add p Q.1 Q.2
+  let t3 := sub p Q.1 Q.2
+  let t0 := mul p t0 t3
+  let t1 := mul p t1 t2
+  let t2 := add p t0 t1
+  let t3 := sub p t0 t1
+  let t2 := sqr p t2
+  let t3 := sqr p t3
+  (mul p D.2 t2, mul p D.1 t3)
+
+/-- bits of k, least significant first -/
+def bitsLE : Nat → Nat → List Bool
+  | 0, _ => []
+  | n + 1, k => (k % 2 == 1) :: bitsLE n (k / 2)
+
+/-- Montgomery ladder x([k]P) over the bits of k (most significant first), k < 2^nbits -/
+def xMUL (p : Nat) (A C : E) (nbits k : Nat) (P : E × E) : E × E :=
+  let step := fun (R : (E × E) × (E × E)) (b : Bool) =>
+    if b then (xADD p R.1 R.2 P, xDBL p A C R.2) else (xDBL p A C R.1, xADD p R.1 R.2 P)
+  -- (R0, R1) = (∞, P) = ([0]P, [1]P); ∞ = (1 : 0)
+  (((bitsLE nbits k).reverse).foldl step (((1, 0), (0, 0)), P)).1
+
+/-- three-point ladder x(P + [k]Q) from x(P), x(Q), x(P−Q) -/
+def ladder3pt (p : Nat) (A C : E) (nbits k : Nat) (P Q D : E × E) : E × E :=
+  let step := fun (X : (E × E) × (E × E) × (E × E)) (b : Bool) =>
+    let X0 := X.1; let X1 := X.2.1; let X2 := X.2.2
+    if b then (xDBL p A C X0, xADD p X0 X1 X2, X2) else (xDBL p A C X0, X1, xADD p X0 X2 X1)
+  ((bitsLE nbits k).foldl step (Q, P, D)).2.1
+
+/-- inverse of an odd number modulo 2^f by Newton iteration (result is re-checked where used) -/
+def invMod2 (f a : Nat) : Nat :=
+  let N := 2 ^ f
+  (List.range 12).foldl (fun inv _ => (inv * ((2 * N + 2 - (a * inv) % N) % N)) % N) (a % N)
+
+/-- x([a]P + [c]Q) for a basis (P, Q, P−Q) of the 2^f-torsion when a is odd: [a](P + [c/a]Q) -/
+def xLinComb (p : Nat) (A C : E) (f a c : Nat) (P Q D : E × E) : E × E :=
+  let N := 2 ^ f
+  let k := (c % N) * invMod2 f a % N
+  xMUL p A C f (a % N) (ladder3pt p A C f k P Q D)
+
+def natOfInt (N : Nat) (z : Int) : Nat := (z % (N : Int)).toNat
+
+/-- x of the image of P under the endomorphism with matrix `m` (column convention:
+    θ(P) = m₀₀·P + m₁₀·Q, θ(Q) = m₀₁·P + m₁₁·Q), for either parity of the coefficients -/
+def xImage (p : Nat) (A C : E) (f : Nat) (a c : Int) (P Q D : E × E) : E × E :=
+  let N := 2 ^ f
+  let a' := natOfInt N a; let c' := natOfInt N c
+  if a' % 2 == 1 then xLinComb p A C f a' c' P Q D else xLinComb p A C f c' a' Q P D
+
+def invOk (f : Nat) (a c : Int) : Bool :=
+  let N := 2 ^ f
+  let a' := natOfInt N a; let c' := natOfInt N c
+  if a' % 2 == 1 then (a' * invMod2 f a') % N == 1 else (c' * invMod2 f c') % N == 1
+
+def negX (p : Nat) (P : E × E) : E × E := (sub p (0, 0) P.1, P.2)
+def conjX (p : Nat) (P : E × E) : E × E := ((P.1.1, (p - P.1.2 % p) % p), (P.2.1, (p - P.2.2 % p) % p))
+
+/-- the matrix `m` (2×2 integer matrix, column convention) describes the action of the map `g` on x-coordinates
+    on the basis (P, Q) and on P−Q (which fixes the relative sign of the two columns) -/
+def actionAgrees (p : Nat) (A C : E) (f : Nat) (m : List (List Int)) (g : E × E → E × E) (B : List (E × E)) : Bool :=
+  match B, m with
+  | [P, Q, D], [[a, b], [c, d]] =>
+    invOk f a c && invOk f b d && invOk f (a - b) (c - d) &&
+    projEq p (xImage p A C f a c P Q D) (g P) &&
+    projEq p (xImage p A C f b d P Q D) (g Q) &&
+    projEq p (xImage p A C f (a - b) (c - d) P Q D) (g D)
+  | _, _ => false
+
 end SqiModel.Fp2N
